@@ -477,7 +477,8 @@ impl DevState {
         Ok(())
     }
     fn push(&mut self, kind: EvKind, off: u64, len: u64, ok: bool, payload: Option<Vec<u8>>) {
-        if self.log_on {
+        // long scans (free-count over a 2^28-entry table) would otherwise log hundreds of millions of reads
+        if self.log_on && (self.log.len() < 500_000 || matches!(kind, EvKind::Write | EvKind::Flush)) {
             let in_drop = fatfs::verif_hooks::in_drop();
             self.log.push(Ev {
                 seq: self.seq,
